@@ -148,6 +148,7 @@ class BoxResult:
         self.ok, self.crash, self.oracle, self.diff_at, self.exact_diff = True, False, [], None, None
         self.impl, self.model, self.stderr = [], [], ""
         self.exact_lines = 0
+        self.rat_ok = 0
         self.lines = 0
 
 
@@ -168,6 +169,7 @@ def run_box(ctx, hcmd, dcmd, ops, timeout=300):
         if ma != mb and r.diff_at is None:
             r.diff_at, r.ok = k, False
         r.lines += 1
+        if sb.get("rat") == "ok": r.rat_ok += 1
         if sa.get("x") == "1":
             r.exact_lines += 1
             # all floating-point operations so far were exact: the Rat model must agree exactly
@@ -204,8 +206,9 @@ def correspond_box(ctx, name, cases, hcmd, dcmd, max_report=4):
     ctx.count("ops_compared", len(all_ops))
     ctx.count("box_lines_exact_mode", big.exact_lines)
     ctx.count("box_lines_bit_mode", big.lines - big.exact_lines)
+    ctx.count("lines_where_float_model_equals_rat_model", big.rat_ok)
     if big.ok:
-        ctx.log(f"{name}: {len(cases)} cases / {len(all_ops)} ops agree; exact-mode lines {big.exact_lines}, bit-mode lines {big.lines - big.exact_lines} ({time.time()-t:.1f}s)")
+        ctx.log(f"{name}: {len(cases)} cases / {len(all_ops)} ops agree; exact-mode lines {big.exact_lines}, bit-mode lines {big.lines - big.exact_lines}, Float=Rat on {big.rat_ok} lines ({time.time()-t:.1f}s)")
         return 0
     with ThreadPoolExecutor(max_workers=3) as ex:
         results = list(ex.map(lambda c: run_box(ctx, hcmd, dcmd, c, timeout=120), cases))
@@ -231,6 +234,47 @@ def correspond_box(ctx, name, cases, hcmd, dcmd, max_report=4):
         ctx.violation(key, replay, found_input=found, what=what)
         if len(seen) >= max_report: break
     return len(failing)
+
+
+# ---------------------------------------------------------------------------
+# dedicated linear solver: QpBoxLinear one-epoch sweeps (harness)  vs  Model/McLinear.lean
+# ---------------------------------------------------------------------------
+def gen_linear_case(r, nsweeps, ctx=None):
+    n = r.range(2, 7)
+    d = r.choice([1, 2, 2])          # at most two summands in <w,x>: the sum is order independent, so bit comparable
+    xs = [r.range(5, 11) for _ in range(n * d)]
+    ys = [r.below(2) for _ in range(n)]
+    ys[0], ys[1] = 0, 1
+    ops = ["data %d %d 2 %s" % (n, d, " ".join(map(str, xs + ys)))]
+    bn, bs = r.choice([(1, 0), (1, 1), (2, 0), (1, 2), (3, 1)])
+    rn, rs = r.choice([(0, 0), (0, 0), (1, 0), (1, 1)])
+    on, os_ = r.choice([(0, 0), (0, 0), (1, 1), (-1, 2)])
+    ops.append(f"lnew {bn} {bs} {rn} {rs} {on} {os_} {r.choice([256, 1, 3])}")
+    for _ in range(r.range(1, nsweeps)):
+        ops.append(f"lsweep {r.range(1, 1 << 30)}")
+    if ctx is not None:
+        ctx.hist("linear_examples", n); ctx.hist("linear_dim", d); ctx.hist("linear_reg", f"{rn}/2^{rs}")
+    return ops
+
+
+def add_schedules(exe, cases):
+    """pass 1: the real solver's epoch schedule (random; observed through the RNG stream) is read from the
+    harness and appended to the `lsweep` ops, so that the model can follow the same schedule"""
+    flat = [l for c in cases for l in c]
+    rc, lines, err = run_harness_lines(exe, flat)
+    out, k = [], 0
+    for c in cases:
+        cc = []
+        for o in c:
+            l = lines[k] if k < len(lines) else ""
+            k += 1
+            m = re.search(r"#sched=([\d.]+)", l)
+            if o.startswith("lsweep") and m and len(o.split()) == 2:
+                cc.append(o + " " + " ".join(m.group(1).split(".")))
+            else:
+                cc.append(o)
+        out.append(cc)
+    return out
 
 
 # ---------------------------------------------------------------------------
@@ -300,14 +344,150 @@ def dispatch_table(drv):
     return {(int(o.split()[1]), o.split()[2]): l for o, l in zip(ops, out)}
 
 
-def trainer_sweeps(ctx, exe, nds, disp=None):
+def train_tolerance(ds, pts, j, kern, gap, epsf, bias):
+    return 2 * math.sqrt(2 * gap) * math.sqrt(max(kxx(ds, pts, j, kern), 0.0)) + (epsf if bias else 0.0) + 1e-9
+
+
+def check_train_group(ctx, exe, ds, F, bias, C, eps, kern, cfgs, disp=None):
+    """one data set, one formulation, one bias setting, several configurations (first = base).
+    Returns (key, what, replay_ops) of the first violation or (None, '', ops)."""
+    n, k = ds["n"], ds["k"]
+    ops = list(ds["ops"])
+    for (shr, cache, perm, batch) in cfgs:
+        ops.append(f"train {F} {bias} {shr} {cache} {C} {eps} {perm} {batch} {kern}")
+    rc, lines, err = run_harness_lines(exe, ops)
+    ctx.count("train_runs", len(cfgs)); ctx.count("evaluations", len(cfgs))
+    ctx.hist("train_formulation", F + ("+b" if bias else ""))
+    res = [parse_train(l) for l in lines[2:]]
+    if rc != 0 or len(res) != len(cfgs):
+        m = re.search(r"ERROR: AddressSanitizer: (\S+)|runtime error: ([^\n]*)", err)
+        return f"crash:train:{(m.group(1) or m.group(2)) if m else 'abort'}:{F}", f"trainer harness aborted: {err[-400:]}", ops
+    P = FORM_P[F](k) if k > 2 else 1
+    epsf, Cf = float(eps), float(C)
+    gap = epsf * n * P * Cf
+    outputs = int(res[0].get("outputs", "1"))
+    tag = F + ("+b" if bias else "")
+    for cfg, rr in zip(cfgs, res):
+        ctx.hist("train_path", rr.get("path", "?"))
+        # the path taken by the real trainer (verified inside the harness by the decision-map / two-class /
+        # OVA oracles) must be the one the generated decision logic predicts
+        if disp is not None:
+            want = disp.get((k, F), "?")
+            got = "path=" + rr.get("path", "?")
+            if rr.get("path") == "mc":
+                got += f" fam={rr.get('fam')} stz={rr.get('stz')} simplex={rr.get('simplex')}"
+            if not want.startswith(got):
+                return f"oracle:dispatch:{F}", f"trainer took {got!r}, generated decision logic says {want!r}", ops
+        if rr["oracle"]:
+            return (f"oracle:{'+'.join(sorted(set(rr['oracle'])))}:{tag}",
+                    f"trainer-level oracle failed for config {cfg}: {rr['raw'][-300:]}", ops)
+        # independently recomputed KKT violation / dual objective of the raw dual variables
+        if "kkt" in rr and float(rr["kkt"]) > epsf * (1 + 1e-6) + 1e-9 * (1 + Cf * n):
+            return f"oracle:kkt-not-reached:{tag}", f"recomputed KKT violation {rr['kkt']} > eps {eps} for config {cfg}", ops
+        if "obj" in rr and not bias and abs(float(rr["obj"]) - float(rr["value"])) > 1e-7 * (1 + abs(float(rr["obj"]))):
+            return f"oracle:objective-mismatch:{F}", f"reported dual objective {rr['value']} vs recomputed {rr['obj']} for config {cfg}", ops
+    b0 = res[0]
+    for cfg, rr in zip(cfgs[1:], res[1:]):
+        worst = 0.0
+        for name, pts, cnt in (("dec", ds["probes"], ds["m"]), ("tdec", ds["xs"], n)):
+            va, vb = b0[name], rr[name]
+            if F in CENTRED and k > 2 and outputs > 1:
+                va, vb = centre(va, outputs), centre(vb, outputs)
+            for j in range(cnt):
+                tol = train_tolerance(ds, pts, j, kern, gap, epsf, bias)
+                for c in range(outputs):
+                    dev = abs(va[j * outputs + c] - vb[j * outputs + c])
+                    worst = max(worst, dev / tol)
+        ctx.hist("train_dev_over_tol", "<=0.01" if worst <= 0.01 else "<=0.1" if worst <= 0.1 else "<=1" if worst <= 1 else ">1")
+        if F != "OVA" and abs(float(b0["value"]) - float(rr["value"])) > 2 * gap + 1e-9 * (1 + abs(float(b0["value"]))):
+            worst = max(worst, 1e6)
+        if worst > 1:
+            two = list(ds["ops"]) + [ops[2], ops[2 + cfgs.index(cfg)]]
+            if bias and k > 2 and F != "OVA":
+                return (f"F-C16-2:mc-bias-path-dependent:{F}",
+                        f"multi-class SVM with offset: decision function / dual value depends on the configuration beyond the solver accuracy "
+                        f"(base {cfgs[0]} value={b0['value']} vs {cfg} value={rr['value']}, deviation/tolerance={worst:.3g})", two)
+            return (f"oracle:config-dependent:{tag}",
+                    f"decision function depends on the configuration beyond the solver accuracy: base {cfgs[0]} vs {cfg}, "
+                    f"deviation/tolerance={worst:.3g}, values {b0['value']} / {rr['value']}", two)
+    return None, "", ops
+
+
+def check_linear_vs_kernel(ctx, exe, ds, F, C, eps):
+    """linear kernel, no offset: the kernel solver (dual decomposition) and the dedicated linear solver solve the same
+    problem; their dual objective values (= primal optimum, strong duality) and decision values must agree within
+    the bound given by the two solver accuracies"""
+    n, k = ds["n"], ds["k"]
+    ops = list(ds["ops"]) + [f"train {F} 0 1 -1 {C} {eps} 0 256 lin", f"ltrain {F} 0 {C} {eps} 0 256 7",
+                             f"ltrain {F} 0 {C} {eps} 1 3 11"]
+    rc, lines, err = run_harness_lines(exe, ops)
+    ctx.count("linear_vs_kernel_runs", 2); ctx.count("evaluations", 3)
+    res = [parse_train(l) for l in lines[2:]]
+    if rc != 0 or len(res) != 3:
+        m = re.search(r"ERROR: AddressSanitizer: (\S+)|runtime error: ([^\n]*)", err)
+        return f"crash:ltrain:{(m.group(1) or m.group(2)) if m else 'abort'}:{F}", f"linear trainer harness aborted: {err[-400:]}", ops
+    for rr in res:
+        if rr["oracle"]:
+            return f"oracle:{'+'.join(sorted(set(rr['oracle'])))}:{F}", f"oracle failed: {rr['raw'][-300:]}", ops
+    P = FORM_P[F](k) if k > 2 else 1
+    epsf, Cf = float(eps), float(C)
+    gap = epsf * n * P * Cf
+    outputs = len(res[0]["dec"]) // ds["m"]
+    kv = float(res[0]["value"])
+    for rr in res[1:]:
+        worst = 0.0
+        for name, pts, cnt in (("dec", ds["probes"], ds["m"]), ("tdec", ds["xs"], n)):
+            va, vb = res[0][name], rr[name]
+            if len(va) != len(vb):
+                return f"oracle:linear-vs-kernel-shape:{F}", f"different number of outputs: {len(va)} vs {len(vb)}", ops
+            if F in CENTRED and k > 2 and outputs > 1:
+                va, vb = centre(va, outputs), centre(vb, outputs)
+            for j in range(cnt):
+                tol = 2 * train_tolerance(ds, pts, j, "lin", gap, epsf, 0)
+                for c in range(outputs):
+                    worst = max(worst, abs(va[j * outputs + c] - vb[j * outputs + c]) / tol)
+        ctx.hist("linear_vs_kernel_dev_over_tol", "<=0.01" if worst <= 0.01 else "<=0.1" if worst <= 0.1 else "<=1" if worst <= 1 else ">1")
+        dv = abs(kv - float(rr["value"]))
+        if F not in ("OVA", "RS") and dv > 4 * gap + 1e-9 * (1 + abs(kv)):
+            worst = max(worst, 1e6)
+        if worst > 1:
+            return (f"oracle:linear-vs-kernel:{F}",
+                    f"kernel solver (linear kernel) and dedicated linear solver disagree beyond the solver accuracy: dual values {kv} / {rr['value']}, "
+                    f"deviation/tolerance={worst:.3g}", ops)
+    return None, "", ops
+
+
+def report_train(ctx, exe, seen, key, what, ops):
+    k0 = ":".join(key.split(":")[:2])
+    if k0 in seen: return
+    seen.add(k0)
+    ctx.violation(key, {"kind": "train", "harness_cmd": [exe], "ops": ops}, True, what)
+
+
+def parse_train_corpus(c):
+    """corpus case: `data`, `probes`, then `train` lines (first = base configuration)"""
+    a = list(map(int, c[0].split()[1:])); n, d, k = a[0], a[1], a[2]
+    pr = list(map(int, c[1].split()[1:]))
+    ds = dict(n=n, d=d, k=k, m=pr[0], xs=a[3:3 + n * d], ys=a[3 + n * d:], probes=pr[1:], ops=c[:2])
+    ts = [l.split() for l in c[2:]]
+    F, bias, C, eps, kern = ts[0][1], int(ts[0][2]), ts[0][5], ts[0][6], ts[0][9]
+    cfgs = [(int(t[3]), int(t[4]), int(t[7]), int(t[8])) for t in ts]
+    return ds, F, bias, C, eps, kern, cfgs
+
+
+def trainer_sweeps(ctx, exe, nds, disp=None, corpus=()):
     """all formulations x bias x shrinking x cache x permutation x batch size on small integer-point data sets;
     decision values compared across configurations within the bound that follows from the solver accuracy:
     two eps-KKT points of the same concave dual have objectives within eps*sum(U-L) of the optimum, hence weight
-    vectors within sqrt(2*gap) of the optimal one, hence |f(x)-f'(x)| <= 2*sqrt(2*eps*n*P*C)*sqrt(k(x,x))."""
+    vectors within sqrt(2*gap) of the optimal one, hence |f(x)-f'(x)| <= 2*sqrt(2*eps*n*P*C)*sqrt(k(x,x))
+    (for the formulations whose M is the centred Gram matrix: of the centred decision values)."""
     r = ctx.rng.fork("c16-train")
-    nviol = 0
     seen = set()
+    for c in corpus:
+        ds, F, bias, C, eps, kern, cfgs = parse_train_corpus(c)
+        key, what, ops = check_train_group(ctx, exe, ds, F, bias, C, eps, kern, cfgs, disp)
+        ctx.count("corpus_train_cases")
+        if key: report_train(ctx, exe, seen, key, what, ops)
     for _ in range(nds):
         ds = gen_dataset(r, ctx.quick)
         n, k = ds["n"], ds["k"]
@@ -324,85 +504,23 @@ def trainer_sweeps(ctx, exe, nds, disp=None):
                 cfgs = [base, (1, -1, 0, 256), (0, 2 * n, 0, 256), (1, 3 * n + 1, 1, 256), (1, n * n, r.range(2, 1 << 20), 3),
                         (0, -1, r.range(2, 1 << 20), 1), (1, 2 * n, 1, 256)]
                 if ctx.quick: cfgs = cfgs[:2] + [r.choice(cfgs[2:]) for _ in range(2)]
-                ops = list(ds["ops"])
-                for (shr, cache, perm, batch) in cfgs:
-                    ops.append(f"train {F} {bias} {shr} {cache} {C} {eps} {perm} {batch} {kern}")
-                rc, lines, err = run_harness_lines(exe, ops)
-                ctx.count("train_runs", len(cfgs)); ctx.count("evaluations", len(cfgs))
-                ctx.hist("train_formulation", F + ("+b" if bias else ""))
-                res = [parse_train(l) for l in lines[2:]]
-                key = None; what = ""
-                if rc != 0 or len(res) != len(cfgs):
-                    m = re.search(r"ERROR: AddressSanitizer: (\S+)|runtime error: ([^\n]*)", err)
-                    key = f"crash:train:{(m.group(1) or m.group(2)) if m else 'abort'}:{F}"; what = f"trainer harness aborted: {err[-400:]}"
-                else:
-                    P = FORM_P[F](k) if k > 2 else 1
-                    epsf, Cf = float(eps), float(C)
-                    gap = epsf * n * P * Cf
-                    outputs = int(res[0].get("outputs", "1"))
-                    for cfg, rr in zip(cfgs, res):
-                        ctx.hist("train_path", rr.get("path", "?"))
-                        # the path taken by the real trainer (verified inside the harness by the decision-map / two-class /
-                        # OVA oracles) must be the one the generated decision logic predicts
-                        if disp is not None:
-                            want = disp.get((k, F), "?")
-                            got = "path=" + rr.get("path", "?")
-                            if rr.get("path") == "mc":
-                                got += f" fam={rr.get('fam')} stz={rr.get('stz')} simplex={rr.get('simplex')}"
-                            if not want.startswith(got):
-                                key = f"oracle:dispatch:{F}"; what = f"trainer took {got!r}, generated decision logic says {want!r}"
-                                break
-                        if rr["oracle"]:
-                            key = f"oracle:{'+'.join(sorted(set(rr['oracle'])))}:{F}{'+b' if bias else ''}"
-                            what = f"trainer-level oracle failed for config {cfg}: {rr['raw'][-300:]}"
-                            break
-                        # independently recomputed KKT violation / dual objective of the raw dual variables
-                        if "kkt" in rr and float(rr["kkt"]) > epsf * (1 + 1e-6) + 1e-9 * (1 + Cf * n):
-                            key = f"oracle:kkt-not-reached:{F}{'+b' if bias else ''}"; what = f"recomputed KKT violation {rr['kkt']} > eps {eps} for config {cfg}"
-                            break
-                        if "obj" in rr and abs(float(rr["obj"]) - float(rr["value"])) > 1e-7 * (1 + abs(float(rr["obj"]))) and not bias:
-                            key = f"oracle:objective-mismatch:{F}"; what = f"reported dual objective {rr['value']} vs recomputed {rr['obj']} for config {cfg}"
-                            break
-                    if key is None:
-                        b0 = res[0]
-                        for cfg, rr in zip(cfgs[1:], res[1:]):
-                            worst = 0.0
-                            for name, pts, cnt in (("dec", ds["probes"], ds["m"]), ("tdec", ds["xs"], n)):
-                                va, vb = b0[name], rr[name]
-                                if F in CENTRED and k > 2 and outputs > 1:
-                                    va, vb = centre(va, outputs), centre(vb, outputs)
-                                for j in range(cnt):
-                                    tol = 2 * math.sqrt(2 * gap) * math.sqrt(max(kxx(ds, pts, j, kern), 0.0)) + (epsf if bias else 0.0) + 1e-9
-                                    for c in range(outputs):
-                                        dev = abs(va[j * outputs + c] - vb[j * outputs + c])
-                                        worst = max(worst, dev / tol if tol > 0 else (0 if dev == 0 else 1e9))
-                            ctx.hist("train_dev_over_tol", "<=0.01" if worst <= 0.01 else "<=0.1" if worst <= 0.1 else "<=1" if worst <= 1 else ">1")
-                            if abs(float(b0["value"]) - float(rr["value"])) > 2 * gap + 1e-9 * (1 + abs(float(b0["value"]))) and F != "OVA":
-                                worst = max(worst, 1e6)
-                            if worst > 1:
-                                if bias and k > 2 and F != "OVA":
-                                    key = f"F-C16-2:mc-bias-path-dependent:{F}"
-                                    what = (f"multi-class SVM with offset: decision function / dual value depends on the configuration beyond the solver accuracy "
-                                            f"(base {cfgs[0]} value={b0['value']} vs {cfg} value={rr['value']}, deviation/tolerance={worst:.3g})")
-                                else:
-                                    key = f"oracle:config-dependent:{F}{'+b' if bias else ''}"
-                                    what = (f"decision function depends on the configuration beyond the solver accuracy: base {cfgs[0]} vs {cfg}, "
-                                            f"deviation/tolerance={worst:.3g}, values {b0['value']} / {rr['value']}")
-                                ops = list(ds["ops"]) + [ops[2], ops[2 + cfgs.index(cfg)]]
-                                break
-                if key is not None:
-                    nviol += 1
-                    k0 = key.split(":")[0] + ":" + key.split(":")[1]
-                    if k0 in seen: continue
-                    seen.add(k0)
-                    ctx.violation(key, {"kind": "train", "harness_cmd": [exe], "ops": ops, "stderr_tail": err[-800:]}, True, what)
-    return nviol
+                key, what, ops = check_train_group(ctx, exe, ds, F, bias, C, eps, kern, cfgs, disp)
+                if key: report_train(ctx, exe, seen, key, what, ops)
+            if kern == "lin":
+                key, what, ops = check_linear_vs_kernel(ctx, exe, ds, F, C, eps)
+                if key: report_train(ctx, exe, seen, key, what, ops)
 
 
 def run(ctx):
-    ctx.trusted += ["translator translate/mcsvm_tables.py (C++ subset parser; every generated table is also compared with the real arrays)",
-                    "correspondence harnesses harness/c16*.cpp + generator checks/c16.py",
-                    "hand-written model Model/McSmo.lean (QpMcBoxDecomp.h, AnalyticProblems.h are modelled, not translated)"]
+    ctx.trusted += ["translator translate/mcsvm_tables.py (C++ subset parser; every generated table is also compared with the real arrays, "
+                    "the generated decision logic with the path the real trainer takes)",
+                    "correspondence harnesses harness/c16.cpp, harness/c16s.cpp + generators/tolerances in checks/c16.py",
+                    "hand-written models Model/McSmo.lean (QpMcBoxDecomp.h, AnalyticProblems.h) and Model/McLinear.lean (QpBoxLinear.h): modelled, not translated",
+                    "ASan/UBSan runtime for the real code's memory safety (not a theorem)"]
+    ctx.assumptions += ["exact arithmetic (Rat) in all theorems; the Float instance of the same definitions is what is compared bit for bit with the C++",
+                        "kernel matrix symmetric (QSym) for mc_grad_inv; operations respect the C++ preconditions (Op.valid)",
+                        "trainer-level tolerances follow from the KKT accuracy bound for a concave dual with PSD Q = M (x) K (kkt_eps_near_optimal is C07's theorem; "
+                        "used here as the formula for the tolerance, not re-proved)"]
     translate(ctx)
     ctx.prove(["SharkVerif.Props.C16"])
     if not ctx.quick:
@@ -429,11 +547,18 @@ def run(ctx):
     ctx.cov["distinct_nontrivial"] += len({"\n".join(c) for c in bcases if len(c) > 3})
     ctx.sample({"box_ops": bcases[len(bcases) // 2][:8]})
     correspond_box(ctx, "K-C16-box", bcases, [exe], [drv])
+    # dedicated linear solver, one-epoch sweeps along the observed schedule
+    lcases = [gen_linear_case(r, 6 if ctx.quick else 25, ctx) for _ in range(60 if ctx.quick else 600)]
+    lcases = add_schedules(exe, lcases)
+    ctx.cov["evaluations"] += len(lcases)
+    ctx.cov["distinct_nontrivial"] += len({"\n".join(c) for c in lcases})
+    ctx.sample({"linear_ops": lcases[0][:4]})
+    correspond_box(ctx, "K-C16-linear", lcases, [exe], [drv])
     # trainer level
     tcorp = [c for c in corpus if c[0].startswith("data")]
-    for c in tcorp:
-        replay_train(ctx, exe, c, report=True)
-    trainer_sweeps(ctx, exe, 10 if ctx.quick else 60, dispatch_table(drv))
+    trainer_sweeps(ctx, exe, 10 if ctx.quick else 60, dispatch_table(drv), tcorp)
+    ctx.sample({"theorems": ["M_is_gram_of_nu", "mc_tables_inv", "mc_box_inv", "mc_grad_inv", "two_class_dispatch",
+                             "ova_is_binary_per_class", "linear_w_inv", "linear_box_inv", "linear_step_gain_nonneg_partial"]})
 
 
 def replay_train(ctx, exe, ops, report=False):
